@@ -5,6 +5,8 @@ import (
 	"io"
 	"log/slog"
 	"os"
+	"path/filepath"
+	"strings"
 	"sync"
 	"time"
 
@@ -228,8 +230,32 @@ func vStub_os_WriteFile(name string, data []byte, perm os.FileMode) error {
 	return vfsDo(vFSOp{kind: "write", name: name, data: append([]byte(nil), data...)})
 }
 func vStub_os_Rename(oldpath, newpath string) error {
+	// the system temporary directory is its own filesystem (tmpfs, a separate volume): rename(2) does not cross it
+	if strings.HasPrefix(oldpath, "/tmp/") != strings.HasPrefix(newpath, "/tmp/") {
+		vfsLog = append(vfsLog, vFSOp{kind: "failed:rename", name: oldpath, to: newpath})
+		return errors.New("invalid cross-device link")
+	}
 	return vfsDo(vFSOp{kind: "rename", name: oldpath, to: newpath})
 }
+
+func vStub_os_TempDir() string { return "/tmp" }
+
+func vStub_os_CreateTemp(dir, pattern string) (*os.File, error) {
+	if dir == "" {
+		dir = "/tmp"
+	}
+	name := dir + "/" + strings.Replace(pattern, "*", "4711", 1)
+	if err := vfsDo(vFSOp{kind: "write", name: name, data: []byte{}}); err != nil {
+		return nil, err
+	}
+	f := new(os.File)
+	vOpenFiles[f] = name
+	vOpenPos[f] = 0
+	vOpenAppend[f] = false
+	return f, nil
+}
+
+func vStub_os_File_Name(f *os.File) string { return vOpenFiles[f] }
 func vStub_os_Remove(name string) error { return vfsDo(vFSOp{kind: "remove", name: name}) }
 func vStub_os_ReadFile(name string) ([]byte, error) {
 	if i := vfs.find(name); i >= 0 {
@@ -390,4 +416,36 @@ func vStub_sync_RWMutex_TryRLock(m *sync.RWMutex) bool {
 		return true
 	}
 	return false
+}
+
+// filepath.Glob as the account loader uses it (pattern <dir>/*.yaml): every name of the file model directly inside
+// <dir> that ends in .yaml - '*' matches any run of non-separator bytes, a leading dot included.
+func vStub_filepath_Glob(pattern string) ([]string, error) {
+	dir := filepath.Dir(pattern)
+	var out []string
+	for _, n := range vfs.names {
+		if filepath.Dir(n) == dir && strings.HasSuffix(filepath.Base(n), ".yaml") {
+			out = append(out, n)
+		}
+	}
+	return out, nil
+}
+
+// yaml.Unmarshal of an account document of the file model: the login recorded in its first line ("Login: x\n").
+func vStub_yaml_Unmarshal(in []byte, out interface{}) error {
+	a, ok := out.(*hotline.Account)
+	if !ok {
+		return nil
+	}
+	const pre = "Login: "
+	if len(in) < len(pre) || string(in[:len(pre)]) != pre {
+		return errors.New("not an account document")
+	}
+	end := len(pre)
+	for end < len(in) && in[end] != '\n' {
+		end++
+	}
+	a.Login = string(in[len(pre):end])
+	a.Name = "loaded"
+	return nil
 }
